@@ -4,6 +4,7 @@ pub mod binfile;
 pub mod strlife;
 pub mod collide;
 pub mod unisweep;
+pub mod jumps;
 pub mod c01;
 pub mod c02;
 pub mod flow;
